@@ -1,7 +1,7 @@
 /-
 Line-protocol driver for the classic quantiles sketch (C07 / C08 parts "quantiles").  Core Lean only.
 
-  T i64|f64                       item type of this history (first line)
+  T i64|f64|str                   item type of this history (first line); str = std::string with a length-first comparator
   rand v1 v2 …                    append recorded random choices to the source (bit = v mod 2, below(n) = v mod n)
   new id k | upd id lit | merge dst src l|r | copy src dst
   view id                         get_sorted_view (sorts the base buffer in place)
@@ -31,6 +31,12 @@ def floatIO : ItemIO Float :=
   { cmp := { lt := fun a b => a < b, nan := fun x => x.isNaN },
     parse := fun s => (parseHex s).map (fun n => Float.ofBits (UInt64.ofNat n)),
     render := fun x => if x == 0.0 then hexF 0.0 else hexF x }
+
+/-- `std::string` items with the harness' custom comparator `LengthFirst` (shorter first, then lexicographic) -/
+def strIO : ItemIO String :=
+  { cmp := { lt := fun a b => a.length < b.length || (a.length == b.length && decide (a < b)), nan := fun _ => false },
+    parse := fun s => some s,
+    render := fun x => x }
 
 structure Tunables where
   lim : Limits
@@ -200,13 +206,16 @@ inductive Top where
   | unset
   | int (d : DState Int)
   | flt (d : DState Float)
+  | str (d : DState String)
 
 def topStep (t : Tunables) (top : Top) (w : List String) : Top × String :=
   match top, w with
   | _, ["T", "i64"] => (.int {}, "T ok")
   | _, ["T", "f64"] => (.flt {}, "T ok")
+  | _, ["T", "str"] => (.str {}, "T ok")
   | .unset, _ => (.unset, "bad-op")
   | .int d, w => let r := stepLine intIO t d w; (.int r.1, r.2)
   | .flt d, w => let r := stepLine floatIO t d w; (.flt r.1, r.2)
+  | .str d, w => let r := stepLine strIO t d w; (.str r.1, r.2)
 
 end DS.Quantiles
